@@ -27,6 +27,8 @@ def queries():
                     d['KF_EXCLUDE_OUT_OF_RANGE'] = 1; d.pop('EXPECT_THROW', None)
                 qs.append(Q('conv_%s_%s_m%d_%s' % (src, dst, mode, tier), 'conv.c', 'utf.cpp', mem_gb=10, defs=d, unwind=n + 2, hunwind=max(4 * n + 4, 18), tiers=(tier,),
                             bound={'pair': '%s->%s' % (src, dst), 'max_units': n, 'mode': mode}, timeout=400 if tier == 'quick' else 1800))
+    for mode in (0, 1, 2):   # 4-byte UTF-8 forms (incl. the tolerated ones above U+10FFFF) need 4 bytes: UTF-8 -> UTF-16 at N = 4 in the quick tier as well
+        qs.append(Q('conv_u8_u16_m%d_n4_quick' % mode, 'conv.c', 'utf.cpp', mem_gb=10, defs=cc.conv_defs('u8', 'u16', 4, mode), unwind=6, hunwind=20, tiers=('quick',), bound={'pair': 'u8->u16', 'max_units': 4, 'mode': mode}, timeout=400))
     for src, dst in sorted(cc.IDENTITY):
         for mode in (1, 2):
             d = cc.conv_defs(src, dst, 1, mode); d.pop('EXPECT_THROW', None)
